@@ -339,6 +339,9 @@ func (e *loopEngine) judge(l *loopInfo) loopVerdict {
 				if cst, ok := call.Call.Args[1].(*ssa.Const); ok && cst.Value != nil && constant.Sign(cst.Value) > 0 {
 					return true
 				}
+				if positiveAt(call.Call.Args[1], call.Block()) {
+					return true // next(n) with n = lineBreakLen() behind `n > 0`
+				}
 			}
 			return false
 		}
